@@ -414,6 +414,10 @@ func runSession(c J) J {
 				<-start
 				for i := 0; i < 40; i++ {
 					eng.ParseTemplateAndCache([]byte("cached"), fmt.Sprintf("zz_cache_%d_%d.liq", w, i), 1)
+					// ... and register again, with the same text, the sources that the renders are including meanwhile
+					for _, cs := range cacheSrcs {
+						eng.ParseTemplateAndCache([]byte(cs.content), cs.name, 1)
+					}
 				}
 			}(w)
 		}
